@@ -3,6 +3,15 @@ EXTENDS CTFE, Json
 
 CONSTANT Depth
 
+\* exhaustive check: the read endpoints other than get-sth are functions of the state that change nothing the
+\* invariants speak about, so they are left to the replay (simulation below enumerates them with arguments)
+MCNext ==
+  \/ Tick
+  \/ \E k \in 1..MaxTree, r \in Rems : Sequence(k, r)
+  \/ \E r \in Rems : Resign(r)
+  \/ \E c \in Certs, ep \in Endpoints : AddChain(c, ep)
+  \/ GetSTH
+
 StateView == <<now, stored, queue, tree, rootTs, issued, sths, roots>>
 
 End == [op |-> "End"]
